@@ -19,7 +19,7 @@ THEOREMS_TIED = ["C17_sql_gc_exact", "C17_sql_gc_keeps_unexpiring", "C17_sql_gc_
 T = 1700000001
 EXPS = [str(T - 1), str(T), str(T + 1), "1", "999", "1699999999", "17000000000", "99999999999", "1700abc", "1600abc", "abc", "",
         "0", "01700000000", " 1700000000", "1700000000.5", "-5"]
-KINDS = [1, 1, 1, 7, 19999, 20000, 20001, 29999, 30000, 10002]
+KINDS = [1, 1, 1, 7, 19999, 20000, 20001, 29999, 30000, 10002, 5, 0, 4, 6, 40000]
 AUTH = gen.AUTHORS[2:4]
 
 
